@@ -93,6 +93,11 @@ func init() {
 }
 
 func init() {
+	props["C03"] = &PropSpec{
+		Rules:      []string{"path/nilpair", "front/parse-gate", "switch/panic-default", "effect/selfrec"},
+		Decides:    "four crash mechanisms of the front end: (1) a (pointer, bool) result that is nil when the bool is false is dereferenced only where the bool was tested true, at every call site in the module; (2) a tree that came with syntax diagnostics never reaches the checker (the gate under which the node switches may assume well-formed trees); (3) the checker's pattern dispatcher, whose default arm panics, has a case for every pattern node kind except the reviewed ones that cannot reach it; (4) no front-end function is an unconditional self call (unrecoverable stack overflow).",
+		NotCovered: "termination (a progress measure over run-time token streams), index-out-of-range and nil dereferences whose guard depends on run-time values, the narrow node switches whose operand set is determined by one grammar production (counted in the evidence, not decided), the macro and regex front ends beyond rule 1.",
+	}
 	props["C27"] = &PropSpec{
 		Rules:      []string{"cover/deepcopy", "repl/snapshot-restore"},
 		Decides:    "the rollback half of the property (a rejected input leaves no trace) at the level of record fields: every DeepCopyEnv method of the type environment writes every field of the copy it returns (or the field is read nowhere, or it is rebuilt by the registerAsChild protocol), and the checker's REPL entry point stores back every snapshot it took, on every path, when the input is rejected.",
